@@ -758,7 +758,7 @@ theorem inv_init (items : List Bond) : Inv items 1 (upd (fun _ => -1) 0 1) := by
     (2) a covalent item with a numbered end has both ends numbered, with the same number;
     (3) for a numbered atom `i`: `m i = m j` exactly when `i` and `j` are connected in the bond graph.
     Not claimed (open finding, `molindex_fails_on_lone_hydrogens`): atoms of hydrogen-only components keep -1.
-    Fuel: `n + 1` sweeps/molecules; that it never runs out is observed by the harness on every case, not proved. -/
+    Fuel: `n + 1` sweeps per molecule and `n + 1` molecules; sufficient by `calcMolindex_fuel_sufficient` below. -/
 theorem molindex_components (hyd : Nat → Bool) (n : Nat) (items : List Bond) (m : Nat → Int) (mx : Int)
     (h : calcMolindex hyd n items = some (m, mx)) :
     (∀ i, i < n → hyd i = false → 0 < m i) ∧
@@ -891,6 +891,137 @@ theorem molindex_fails_on_lone_hydrogens : ¬ MolindexPartitionStatement := by
   have := (h _ 3 [] m mx e 1 2 (by omega) (by omega)).mp (by simp only at h1 h2; rw [h1, h2])
   have := conn_nil this
   omega
+
+
+/-! ### the fuel of the model's loops is sufficient -/
+
+/-- number of unnumbered atoms among the first `n` -/
+def negCount : Nat → (Nat → Int) → Nat
+  | 0, _ => 0
+  | k + 1, m => negCount k m + (if m k < 0 then 1 else 0)
+
+theorem negCount_le (n : Nat) (m : Nat → Int) : negCount n m ≤ n := by
+  induction n with
+  | zero => simp [negCount]
+  | succ k ih => simp only [negCount]; split <;> omega
+
+theorem negCount_upd_ge (k i : Nat) (m : Nat → Int) (v : Int) (h : k ≤ i) : negCount k (upd m i v) = negCount k m := by
+  induction k with
+  | zero => simp [negCount]
+  | succ j ih =>
+    simp only [negCount]
+    rw [ih (by omega), upd_other m i j v (by omega)]
+
+theorem negCount_upd_le (n i : Nat) (m : Nat → Int) (v : Int) (hv : 0 ≤ v) : negCount n (upd m i v) ≤ negCount n m := by
+  induction n with
+  | zero => simp [negCount]
+  | succ k ih =>
+    simp only [negCount]
+    by_cases h : k = i
+    · subst h
+      rw [upd_same, negCount_upd_ge k k m v (Nat.le_refl _)]
+      have : ¬ v < 0 := by omega
+      rw [if_neg this]
+      split <;> omega
+    · rw [upd_other m i k v h]
+      split <;> omega
+
+theorem negCount_upd_lt (n i : Nat) (m : Nat → Int) (v : Int) (hv : 0 ≤ v) (hi : i < n) (hm : m i < 0) :
+    negCount n (upd m i v) + 1 ≤ negCount n m := by
+  induction n with
+  | zero => omega
+  | succ k ih =>
+    simp only [negCount]
+    by_cases h : k = i
+    · rw [h, upd_same, negCount_upd_ge i i m v (Nat.le_refl _)]
+      have : ¬ v < 0 := by omega
+      rw [if_neg this, if_pos hm]
+    · rw [upd_other m i k v h]
+      have := ih (by omega)
+      split <;> omega
+
+theorem fire_decreases (n : Nat) (m : Nat → Int) (mx : Int) (hmx : 0 < mx) (b : Bond) (h1 : b.a1 < n) (h2 : b.a2 < n)
+    (hf : fires m b = true) : negCount n (upd (upd m b.a1 mx) b.a2 mx) + 1 ≤ negCount n m := by
+  obtain ⟨_, hneg⟩ := (fires_iff m b).mp hf
+  rcases Int.mul_neg_iff.mp hneg with ⟨p, q⟩ | ⟨p, q⟩
+  · have hne : b.a2 ≠ b.a1 := by intro e; rw [e] at q; omega
+    have a := negCount_upd_le n b.a1 m mx (by omega)
+    have b' := negCount_upd_lt n b.a2 (upd m b.a1 mx) mx (by omega) h2 (by rw [upd_other _ _ _ _ hne]; exact q)
+    omega
+  · have a := negCount_upd_lt n b.a1 m mx (by omega) h1 p
+    have b' := negCount_upd_le n b.a2 (upd m b.a1 mx) mx (by omega)
+    omega
+
+theorem molFold_measure (n : Nat) (mx : Int) (hmx : 0 < mx) : ∀ (l : List Bond) (st : (Nat → Int) × Nat),
+    (∀ b ∈ l, b.a1 < n ∧ b.a2 < n) →
+    negCount n (l.foldl (molStep mx) st).1 + (l.foldl (molStep mx) st).2 ≤ negCount n st.1 + st.2 := by
+  intro l
+  induction l with
+  | nil => intro st _; simp
+  | cons b l ih =>
+    intro st hb
+    simp only [List.foldl_cons]
+    have := ih (molStep mx st b) (fun x hx => hb x (List.mem_cons_of_mem _ hx))
+    refine le_trans this ?_
+    unfold molStep
+    by_cases hf : fires st.1 b = true
+    · rw [if_pos hf]
+      have := fire_decreases n st.1 mx hmx b (hb b (List.mem_cons_self ..)).1 (hb b (List.mem_cons_self ..)).2 hf
+      simp only
+      omega
+    · rw [if_neg hf]
+
+theorem molInner_fuel (n : Nat) (mx : Int) (hmx : 0 < mx) (items : List Bond) (hb : ∀ b ∈ items, b.a1 < n ∧ b.a2 < n) :
+    ∀ (f : Nat) (m : Nat → Int), negCount n m < f →
+      ∃ m', molInner mx items f m = some m' ∧ negCount n m' ≤ negCount n m := by
+  intro f
+  induction f with
+  | zero => intro m h; omega
+  | succ f ih =>
+    intro m h
+    simp only [molInner]
+    have hm := molFold_measure n mx hmx items (m, 0) hb
+    simp only [Nat.add_zero] at hm
+    by_cases hz : (molPass mx items m).2 = 0
+    · rw [if_pos hz]
+      exact ⟨_, rfl, by unfold molPass at hz ⊢; omega⟩
+    · rw [if_neg hz]
+      have hlt : negCount n (molPass mx items m).1 < f := by unfold molPass at hz ⊢; omega
+      obtain ⟨m', e, hle⟩ := ih _ hlt
+      exact ⟨m', e, by unfold molPass at hle; omega⟩
+
+theorem molOuter_fuel (hyd : Nat → Bool) (n : Nat) (items : List Bond) (hb : ∀ b ∈ items, b.a1 < n ∧ b.a2 < n) :
+    ∀ (f : Nat) (mx : Int) (m : Nat → Int), 0 < mx → negCount n m < f →
+      (molOuter hyd n items (n + 1) f mx m).isSome = true := by
+  intro f
+  induction f with
+  | zero => intro mx m _ h; omega
+  | succ f ih =>
+    intro mx m hmx h
+    simp only [molOuter]
+    obtain ⟨m1, e, hle⟩ := molInner_fuel n mx hmx items hb (n + 1) m (by have := negCount_le n m; omega)
+    rw [e]
+    dsimp only
+    cases hfu : firstUnassigned hyd n m1 with
+    | none => simp
+    | some ni =>
+      dsimp only
+      by_cases h0 : ni = 0
+      · rw [if_pos h0]; simp
+      · rw [if_neg h0]
+        have hfound := List.find?_some hfu
+        have hmem := List.mem_of_find?_eq_some hfu
+        simp only [Bool.and_eq_true, Bool.not_eq_true', decide_eq_true_eq] at hfound
+        have hlt := negCount_upd_lt n ni m1 (mx + 1) (by omega) (List.mem_range.mp hmem) hfound.2
+        exact ih (mx + 1) _ (by omega) (by omega)
+
+/-- **fuel**: with the item indices inside the atom list, `n + 1` sweeps per molecule and `n + 1` molecules are
+    enough — the model's `none` (fuel exhausted) never occurs, i.e. the Python `while` loops terminate -/
+theorem calcMolindex_fuel_sufficient (hyd : Nat → Bool) (n : Nat) (items : List Bond) (hn : 0 < n)
+    (hb : ∀ b ∈ items, b.a1 < n ∧ b.a2 < n) : (calcMolindex hyd n items).isSome = true := by
+  unfold calcMolindex
+  rw [if_neg (by omega)]
+  exact molOuter_fuel hyd n items hb (n + 1) 1 _ (by omega) (by have := negCount_le n (upd (fun _ => -1) 0 1); omega)
 
 
 end Shelx.C13
